@@ -216,6 +216,27 @@ def apply_op(op):
     return True
 
 
+async def vanish(st: "Stack", path) -> bool:
+    """A declared static file disappears while the build phase is still running and the step that uses it
+    notices: the file is removed and the executor's reaction is replayed through the Workflow API
+    (`_finish_failed_step` / the input validation: `update_file_hashes({path: unknown}, cause=FAILED)`,
+    CONFIRMED -> MISSING, hash cleared; recorded glob matches are NOT touched by that path of the code).
+    Returns False when not applicable (no such CONFIRMED attached node / no such file)."""
+    from stepup.core.enums import FileState, HashUpdateCause
+    from stepup.core.file import File
+    from stepup.core.hash import FileHash
+    if not os.path.isfile(path):
+        return False
+    async with st.db:
+        node = st.wf.find_attached(File, path)
+        if node is None or node.get_state() != FileState.CONFIRMED:
+            return False
+    os.remove(path)
+    async with st.db:
+        st.wf.update_file_hashes({path: FileHash.unknown()}, cause=HashUpdateCause.FAILED)
+    return True
+
+
 def snapshot_tree(root="."):
     """{relative path: content} for files, {path/: None} for directories (excluding sentinel)."""
     out = {}
